@@ -29,10 +29,10 @@ def m_from_string(ev, args, kw, node):
         raise Unmodelled(f"signature text {txt!r}", node)
     p = parse_signature(s)
     if p is None:
-        return Obj("Signature", "malformed", (), {"text": s, "parsed": None})
+        return Obj("Signature", "malformed", (), {"text": s, "parsed": None, "__isinstance__": ("_GridUFuncSignature",)})
     ins, outs = p
     return Obj("Signature", s, (), {
-        "text": s, "parsed": p,
+        "text": s, "parsed": p, "__isinstance__": ("_GridUFuncSignature",),
         "in_ax_names": [tuple(n for n, _ in a) for a in ins], "in_ax_positions": [tuple(q for _, q in a) for a in ins],
         "out_ax_names": [tuple(n for n, _ in a) for a in outs], "out_ax_positions": [tuple(q for _, q in a) for a in outs],
     })
@@ -51,7 +51,7 @@ def m_sig_ctor(ev, args, kw, node):
         outs = [list(zip(a, p)) for a, p in zip(norm_names(b["out_ax_names"]), b["out_ax_positions"])]
     except Exception:
         raise Unmodelled("signature constructor arguments", node)
-    return Obj("Signature", "ctor", (), {"text": None, "parsed": (ins, outs), "in_ax_names": norm_names(b["in_ax_names"]),
+    return Obj("Signature", "ctor", (), {"text": None, "parsed": (ins, outs), "__isinstance__": ("_GridUFuncSignature",), "in_ax_names": norm_names(b["in_ax_names"]),
                                        "in_ax_positions": [tuple(p) for p in b["in_ax_positions"]],
                                        "out_ax_names": norm_names(b["out_ax_names"]), "out_ax_positions": [tuple(p) for p in b["out_ax_positions"]]})
 
